@@ -187,6 +187,9 @@ type vsUp struct {
 	got chan []byte
 }
 
+// how long the slow client waits before its second segment
+const vsLateAfter = 3300 * time.Millisecond
+
 func vsStartUpstream() *vsUp {
 	ln, err := net.Listen("tcp", "127.0.0.1:0")
 	if err != nil {
@@ -254,6 +257,47 @@ func TestVerifC12Send(t *testing.T) {
 	pp := &l4proxyprotocol.Handler{}
 	if err := pp.Provision(ctx); err != nil {
 		t.Fatal(err)
+	}
+
+	// a client that goes on sending well after the dial: "immediately followed by the client's
+	// stream" is the WHOLE stream, also the part that arrives seconds after the header went out
+	// (nothing set up for sending the header, such as a deadline, may stay in force). Runs beside
+	// the other cases on its own backend and handler, so that it costs no wall time of its own.
+	type lateRes struct {
+		ver       int
+		got, want []byte
+		err       error
+	}
+	lateCh := make(chan lateRes, 2)
+	for _, ver := range []int{1, 2} {
+		ver := ver
+		u := vsStartUpstream()
+		defer u.ln.Close()
+		lh := &Handler{ProxyProtocol: map[int]string{1: "v1", 2: "v2"}[ver], Upstreams: UpstreamPool{&Upstream{Dial: []string{"tcp/" + u.ln.Addr().String()}}}}
+		if err := lh.Provision(ctx); err != nil {
+			t.Fatal(err)
+		}
+		defer lh.Cleanup()
+		go func() {
+			in, cl := net.Pipe()
+			cx := layer4.WrapConnection(&vsConn{Conn: in, remote: &net.TCPAddr{IP: net.IPv4(10, 1, 2, 3).To4(), Port: 51000}, local: &net.TCPAddr{IP: net.IPv4(192, 168, 0, 11).To4(), Port: 443}}, []byte{}, zap.NewNop())
+			first, late := []byte("first segment, right away;"), []byte(" second segment, seconds later")
+			go func() {
+				cl.Write(first)
+				time.Sleep(vsLateAfter)
+				cl.Write(late)
+				cl.Close()
+			}()
+			err := lh.Handle(cx, nil)
+			in.Close()
+			res := lateRes{ver: ver, want: append(append([]byte{}, first...), late...), err: err}
+			select {
+			case res.got = <-u.got:
+			case <-time.After(10 * time.Second):
+				res.err = fmt.Errorf("upstream did not finish")
+			}
+			lateCh <- res
+		}()
 	}
 
 	seen := map[string]bool{}
@@ -482,6 +526,20 @@ func TestVerifC12Send(t *testing.T) {
 		}
 		c := vsCase{version: ver, remote: p.r, local: p.l, name: p.name, payload: r.Bytes(r.Intn(200)), fanout: 1 + i%3}
 		run(c, [][]byte{c.payload}, "whole")
+	}
+	for i := 0; i < 2; i++ {
+		res := <-lateCh
+		inp := map[string]any{"version": res.ver, "case": "client sends a second segment " + vsLateAfter.String() + " after the first", "peer": "10.1.2.3:51000",
+			"upstream_received": fmt.Sprintf("%q", res.got), "error": fmt.Sprint(res.err)}
+		p := vsStrict(res.ver, res.got)
+		switch {
+		case res.err != nil:
+			out.Fail("C12:send:not-relayed", fmt.Sprintf("the proxy handler did not relay the slow client: %v", res.err), inp)
+		case !p.ok:
+			out.Fail("C12:send:header-malformed", "slow client: the upstream did not receive one well-formed PROXY header first", inp)
+		case !bytes.Equal(p.rest, res.want):
+			out.Fail("C12:send:stream-differs", "the part of the client's stream sent seconds after the header did not reach the upstream", inp)
+		}
 	}
 	out.Stat("send_cases", len(seen))
 }
